@@ -1,8 +1,8 @@
 import Prism.Proofs.C07
-open Prism
-#print axioms C07_replay
-#print axioms C07_drain
-#print axioms C07_png
-#print axioms C07_jpeg
-#print axioms C07_webp
-#print axioms C07_auto
+
+#print axioms Prism.C07_replay
+#print axioms Prism.C07_drain
+#print axioms Prism.C07_png
+#print axioms Prism.C07_jpeg
+#print axioms Prism.C07_webp
+#print axioms Prism.C07_auto
